@@ -446,6 +446,9 @@ func (fx *FnExec) callWithContract(in ssa.Instruction, c *ssa.CallCommon, ct *Co
 	preGh := copyMap(fx.cur.gh)
 	env := &evalEnv{fx: fx, heap: fx.cur.heap, oldHeap: pre, names: names, gh: fx.cur.gh, oldGh: preGh}
 	for k, r := range ct.Requires {
+		if r.Global {
+			continue // an invariant of package-level state: kept by its writers, not owed by callers
+		}
 		t, err := fx.evalC(r.ast, env)
 		if err != nil {
 			fx.outside = append(fx.outside, fmt.Sprintf("call %s requires %q: %v", ct.Name, r.Text, err))
